@@ -244,7 +244,9 @@ inline Sym exp (Sym a) { return un (EXP, a); }
 inline Sym log (Sym a) { return un (LOG, a); }
 inline Sym atan2 (Sym a, Sym b) { return bin (ATAN2, a, b); }
 inline Sym pow (Sym a, Sym b) { return bin (POW, a, b); }
-inline Sym abs (Sym a) { return un (ABS, a); }
+// `abs` is a template here so that an UNQUALIFIED `abs (x)` inside the Imath namespace (ImathLineAlgo.h), which sees both
+// this function (ADL) and the non-template `IMATH_INTERNAL_NAMESPACE::abs (Sym)` below, is not ambiguous: the non-template wins.
+template <class S, class = typename std::enable_if<std::is_same<S, Sym>::value>::type> inline Sym abs (S a) { return un (ABS, a); }
 inline Sym fabs (Sym a) { return un (ABS, a); }
 
 } // namespace symns
